@@ -35,6 +35,7 @@ type VoteTruth struct {
 type SentTx struct {
 	Raw    []byte
 	Msgs   []sdk.Msg
+	Truths []*VoteTruth // per message, for multi-message transactions
 	Truth  *VoteTruth
 	Height int64
 	Label  string
@@ -43,7 +44,8 @@ type SentTx struct {
 
 type RelState struct {
 	ByAddr        map[string]*RelMember
-	Truth         map[string]*VoteTruth // by tx hash
+	Truth         map[string]*VoteTruth   // by tx hash
+	TruthMulti    map[string][]*VoteTruth // by tx hash, per message (multi-message transactions)
 	Labels        map[string]*SentTx
 	Sent          []*SentTx
 	NextMember    int
@@ -53,7 +55,7 @@ type RelState struct {
 
 func (w *World) rel() *RelState {
 	if w.R == nil {
-		w.R = &RelState{ByAddr: map[string]*RelMember{}, Truth: map[string]*VoteTruth{}, Labels: map[string]*SentTx{}, AcceptedVotes: map[string]int64{}, RegTruth: map[string]*regTruth{}}
+		w.R = &RelState{ByAddr: map[string]*RelMember{}, Truth: map[string]*VoteTruth{}, TruthMulti: map[string][]*VoteTruth{}, Labels: map[string]*SentTx{}, AcceptedVotes: map[string]int64{}, RegTruth: map[string]*regTruth{}}
 		for _, m := range w.Members {
 			w.R.ByAddr[m.Addr()] = m
 		}
@@ -324,10 +326,20 @@ func (w *World) proposerTx(signer *RelMember, msgs []sdk.Msg, opt TxOpts) ([]byt
 	return w.buildTx(opt)
 }
 
+// submitMulti: a multi-message transaction with one ground truth per message.
+func (w *World) submitMulti(raw []byte, msgs []sdk.Msg, truths []*VoteTruth, label string) string {
+	w.pendingTruths = truths
+	defer func() { w.pendingTruths = nil }()
+	return w.submit(raw, msgs, nil, label, false)
+}
+
 // submit gossips a transaction to the live nodes (CheckTx) and records it.
 func (w *World) submit(raw []byte, msgs []sdk.Msg, truth *VoteTruth, label string, honest bool) string {
 	r := w.rel()
-	st := &SentTx{Raw: raw, Msgs: msgs, Truth: truth, Height: w.Cmt.Height, Label: label, Honest: honest}
+	st := &SentTx{Raw: raw, Msgs: msgs, Truth: truth, Truths: w.pendingTruths, Height: w.Cmt.Height, Label: label, Honest: honest}
+	if st.Truths != nil {
+		r.TruthMulti[txHash(raw)] = st.Truths
+	}
 	r.Sent = append(r.Sent, st)
 	if len(r.Sent) > 400 {
 		r.Sent = r.Sent[len(r.Sent)-400:]
